@@ -7,7 +7,9 @@ SPEC = dict(
     level_rule=("cases: (a) CQuery — one generated corpus (vocabulary of 3-6 colliding words, keyword / numeric / datetime / geo "
                 "fields, 1-4 segments by batch partitioning with merging switched off, later batches updating and deleting "
                 "documents of earlier ones so that deletions are pending) with a batch of generated query trees (depth <= 4, "
-                "boolean nodes up to 12 clauses so that slice and heap disjunctions are both taken; term, match, match-phrase, "
+                "boolean nodes up to 12 clauses so that slice and heap disjunctions are both taken; corpora whose last structural "
+                "change is a merge introduction or a merge followed by one batch; corpora with geo points in boundary cells just "
+                "outside a box / circle; term, match, match-phrase, "
                 "multi-phrase with slop and placeholders, prefix, wildcard, regexp, fuzzy, term range incl. inverted and "
                 "degenerate, numeric range, date range, geo box / distance, match-all / none) and the ids returned by "
                 "Reader.Search (AllMatches; TopN with scoring none; AllMatches with locations); the Coq check recomputes them "
@@ -35,14 +37,22 @@ META = dict(
     text=("Executable Gallina models of index/postings.go and of every searcher of search/searcher (term, conjunction, both "
           "disjunctions over a model of container/heap, boolean, phrase + findPhrasePaths, filter, match-all/none) and of "
           "query.go's compilation, with a denotation `sem` of the documented query meaning; theorems relate the state machines "
-          "to the denotation (iterator contract by induction on the tree); the model is tied to the code on every run by "
+          "to the denotation: the iterator contract is PROVED node by node (postings leaf, conjunction, slice and heap "
+          "disjunction, boolean searcher for Next and Advance) and by induction on the depth for arbitrarily nested trees of "
+          "term / match-none leaves and boolean nodes (searcher_spec_tree), giving search_exact and searcher_spec for every "
+          "nested boolean query over term clauses with the conjunction push-down off (search_exact_nested_partial, "
+          "searcher_spec_nested_partial) and, for flat boolean queries, with the default options; still _partial: phrase, "
+          "multi-term, match-all and doc-set leaves, the push-down under nesting; the model is tied to the code on every run by "
           "recomputing the implementation's observed results and Next/Advance traces with vm_compute, and by regenerated "
           "constants (DisjunctionHeapTakeover, clause minima)."),
     design_ref="DESIGN.md Part 2 C07, 3.5",
     note=("Trusted: Coq kernel, goextract, harness. Third-party segment/automaton/geo code enters as parameters. Known findings: "
           "scoring 'none' drops min-should (unadorned disjunction reports Min()=0), fuzzy counts a transposition as one edit, "
           "numeric range enumeration blow-up (C10 D8). Repaired: iterator recycled while in use after a backward Advance, "
-          "inverted/degenerate term ranges, FuzzyQuery with fuzziness 0."),
+          "inverted/degenerate term ranges, FuzzyQuery with fuzziness 0. Proof-level facts about the implementation recorded "
+          "in the statements: BooleanSearcher.Advance as a first call skips the first should match (callers start with "
+          "Next); advanceIfTrailing advances an optional should searcher below its cursor; a conjunction that ran dry "
+          "re-advances finished children, whose postings iterators restart or return left-over postings (sound, not exact)."),
     technique="Coq proof (induction over searcher trees, list/order lemmas) + vm_compute correspondence on observed results and traces + direct Go oracle",
 )
 
